@@ -105,6 +105,33 @@ def run(ctx, scale=1):
     rng = ctx.rng
     R = C.real()
     m = R.m
+    # ---- a `calls=` hook that calls the library again (same thread).  The pinned tree blocks on its own, non-reentrant
+    #      lock: nothing to observe then.  If the nested call does go through, the tree it returned must stay as it was
+    #      returned when the outer call finishes (the outer call's NULL substitution must not reach into it).
+    import subprocess
+    script = (
+        "import sys, json, copy\nsys.path.insert(0, %r)\nimport mo_sql_parsing as m\ninner = []\n"
+        "def hook(op, args, kwargs):\n"
+        "    if not inner:\n"
+        "        inner.append(None)\n"
+        "        t = m.parse('select f(null), null from u where g(null, 1) = h(null)')\n"
+        "        inner[0] = (t, copy.deepcopy(t))\n"
+        "    return m.simple_op(op, args, kwargs)\n"
+        "out = m.parse('select k(null), j(1), null from t', calls=hook, null={'N': 1})\n"
+        "t, snap = inner[0]\n"
+        "print(json.dumps({'same': t == snap, 'now': t, 'then': snap}))\n" % C.REPO)
+    try:
+        pr = subprocess.run([C.PY, "-W", "ignore", "-c", script], capture_output=True, timeout=12)
+        outcome = json.loads(pr.stdout.decode("utf8").strip().splitlines()[-1]) if pr.returncode == 0 and pr.stdout.strip() else {"error": pr.stderr.decode("utf8", "replace")[-200:]}
+    except subprocess.TimeoutExpired:
+        outcome = {"blocked": True}
+    rep.count("reentrant_hook", "blocked" if outcome.get("blocked") else ("same" if outcome.get("same") else ("error" if "error" in outcome else "MODIFIED")))
+    rep.case("reentrant-hook")
+    if outcome.get("same") is False:
+        rep.finding("returned-tree-modified:reentrant-hook",
+                    "a tree returned to a calls= hook by a nested parse was modified when the outer parse finished: %s -> %s" % (
+                        json.dumps(outcome["then"])[:140], json.dumps(outcome["now"])[:140]),
+                    {"kind": "reentrant-hook"})
     for d, s, kw in PROBES:
         R.parse_raw(s, d, **kw)          # build the parsers before the census of library objects
     for d in ("sqlserver", "bigquery"):
@@ -259,6 +286,9 @@ def search(ctx):
 
 
 def replay(ctx, p):
+    if p.get("kind") == "reentrant-hook":
+        print("re-run ./check C17: the re-entrant hook probe is part of every run")
+        return True
     R = C.real()
     m = R.m
     d = p.get("dialect", "common")
